@@ -17,12 +17,15 @@ theorem C07_format_step_generated (D : Desc) (s : St) (f : Fsm) (i : SvcIn) :
     formatReadArgs D s f i = Gen.format_read_args D s f i :=
   formatReadArgs_generated D s f i
 
-/-- the counters this property's theorems keep as unbounded natural numbers (`var_num`, `position`, `index`, `position`, `data_size`) are declared
+/-- the counters this property's theorems keep as unbounded natural numbers (`var_num`, `index`, `length`, `position`, `write_size`, `index`, `position`, `data_size`) are declared
 `size_t` in `cat.h` — 64 bits on the target, so they cannot wrap on any buffer, table or line that exists; the widths
 are read from the struct declarations on every run (translator item T21) -/
 theorem C07_counters_unbounded :
     Gen.width_cmd_var_num = 64 ∧
+    Gen.width_obj_index = 64 ∧
+    Gen.width_obj_length = 64 ∧
     Gen.width_obj_position = 64 ∧
+    Gen.width_obj_write_size = 64 ∧
     Gen.width_uns_index = 64 ∧
     Gen.width_uns_position = 64 ∧
     Gen.width_var_data_size = 64 := by decide
